@@ -125,7 +125,7 @@ func VerifyFunc(L *Loaded, fn *ssa.Function, con *FuncContract, opt runOpts) (re
 					n = strings.TrimSpace(names[i])
 				}
 				if n != "" && n != "_" {
-					env.vars[n] = SV{t: args[i+1].t(), typ: fn.Params[i+1].Type(), addr: args[i+1].Addr}
+					env.vars[n] = SV{t: args[i+1].t(), typ: fn.Params[i+1].Type(), addr: args[i+1].Addr, pointee: args[i+1].Addr != nil}
 				}
 			}
 		}
